@@ -66,13 +66,20 @@ extern "C" void harness(void)
 	CK_RV rv = hsm->C_VerifyUpdate(hS, pIn, inLen); k.expectOp = SESSION_OP_VERIFY; k.hasOut = false;
 #elif FN == 14
 	CK_RV rv = hsm->C_VerifyFinal(hS, pOut, outLen); k.expectOp = SESSION_OP_VERIFY; k.finishing = true; k.hasOut = false;
+#elif FN == 15   // C_FindObjects: the find operation object may be absent (C_FindObjectsInit failed after setting the operation type)
+	static CK_OBJECT_HANDLE got[4]; CK_ULONG n = 99; s->findOp = nondet_bool() ? FindOperation::create() : (FindOperation*)0;
+	CK_RV rv = hsm->C_FindObjects(hS, nondet_bool() ? got : NULL, nondet_uchar() % 4, nondet_bool() ? &n : NULL); k.expectOp = SESSION_OP_FIND; k.hasOut = false;
+	if (rv == CKR_OK) { vassert(hS == env.hSession && op0 == SESSION_OP_FIND && s->findOp != 0 && n == 0); vreach(); }
+#elif FN == 16
+	s->findOp = nondet_bool() ? FindOperation::create() : (FindOperation*)0;
+	CK_RV rv = hsm->C_FindObjectsFinal(hS); k.expectOp = SESSION_OP_FIND; k.hasOut = false; k.finishing = true;
 #endif
 	bool dataCalls = crypto_log.dataCalls > 0;
 	// ---- a call on another / unknown session touches nothing
 	if (hS != env.hSession) { vassert((rv == CKR_SESSION_HANDLE_INVALID || rv == CKR_ARGUMENTS_BAD) && !dataCalls && s->operation == op0); }
 	// ---- continuing an operation that was not started
 	if (hS == env.hSession && op0 != k.expectOp) { vassert(rv == CKR_OPERATION_NOT_INITIALIZED || rv == CKR_ARGUMENTS_BAD); vassert(!dataCalls); vassert(s->operation == op0 || s->operation == SESSION_OP_NONE); vreach(); }
-	if (dataCalls) { vassert(hS == env.hSession && op0 == k.expectOp); vreach(); }
+	if (dataCalls) { vassert(hS == env.hSession && op0 == k.expectOp); if (FN < 15) vreach(); }
 	if (k.hasOut)
 	{
 		// ---- length query and CKR_BUFFER_TOO_SMALL leave the operation active and unchanged
@@ -87,7 +94,7 @@ extern "C" void harness(void)
 	if (hS == env.hSession && op0 == k.expectOp && k.finishing && !(rv == CKR_OK && k.hasOut && pOut == NULL_PTR) && rv != CKR_BUFFER_TOO_SMALL && rv != CKR_ARGUMENTS_BAD && rv != CKR_USER_NOT_LOGGED_IN
 	    && rv != CKR_FUNCTION_NOT_SUPPORTED && !(rv == CKR_OPERATION_NOT_INITIALIZED && !multi0))   // multi-part call on a single-part-only operation: refused without running, operation stays
 	{ vassert(s->operation == SESSION_OP_NONE); vreach(); }
-	if (hS == env.hSession && op0 == k.expectOp && !k.finishing && rv != CKR_OK && rv != CKR_BUFFER_TOO_SMALL && rv != CKR_ARGUMENTS_BAD && rv != CKR_FUNCTION_NOT_SUPPORTED && !(rv == CKR_OPERATION_NOT_INITIALIZED && !multi0)) { vassert(s->operation == SESSION_OP_NONE); vreach(); }
+	if (hS == env.hSession && op0 == k.expectOp && !k.finishing && rv != CKR_OK && rv != CKR_BUFFER_TOO_SMALL && rv != CKR_ARGUMENTS_BAD && rv != CKR_FUNCTION_NOT_SUPPORTED && !(rv == CKR_OPERATION_NOT_INITIALIZED && !multi0) && FN != 15) { vassert(s->operation == SESSION_OP_NONE); vreach(); }
 	if (hS == env.hSession && op0 == k.expectOp && !k.finishing && (rv == CKR_OK || rv == CKR_BUFFER_TOO_SMALL)) vassert(s->operation == op0);
 	// ---- C07: no private-key output before the context-specific login
 	if (k.needsReauthClear && reauth0 && hS == env.hSession && op0 == k.expectOp && s->asymmetricCryptoOp == &model_asym && !s->symmetricCryptoOp && !s->macOp) { vassert(rv != CKR_OK || pOut == NULL_PTR); vassert(!dataCalls); if (pOut) for (int i = 0; i < OUTCAP; i++) vassert(out[i] == canary[i]); vreach(); }
